@@ -93,61 +93,72 @@ def parse_log(txt, harnesses):
     return res
 
 
-def playback(pid, harness, timeout_s=1200):
-    """concrete playback of a failing harness: generates the unit test in place, runs it
-    natively (dev profile) and restores the sources. returns (reproduced, text)"""
+def playback(pid, harness, full_name=None, timeout_s=1500):
+    """concrete playback of a failing harness: Kani prints a unit test holding the solver's
+    concrete values; it is written to kani/src/playback_gen.rs, run natively (dev profile,
+    real error handling - stubs are not applied) and removed. returns (reproduced, text)"""
     target = os.path.join(VERIF, "target", "kani")
-    src = os.path.join(KANI_DIR, "src")
-    bak = os.path.join(VERIF, "work", "kani_src_backup_%s" % pid)
-    shutil.rmtree(bak, ignore_errors=True)
-    shutil.copytree(src, bak)
+    full_name = full_name or harness
+    gen = os.path.join(KANI_DIR, "src", "playback_gen.rs")
+    librs = os.path.join(KANI_DIR, "src", "lib.rs")
+    lib_orig = open(librs).read()
     try:
-        cmd = ["cargo", "kani", "-Z", "stubbing", "-Z", "concrete-playback", "--concrete-playback=inplace", "--target-dir", target, "--harness", harness]
+        cmd = ["cargo", "kani", "-Z", "stubbing", "-Z", "concrete-playback", "--concrete-playback=print", "--target-dir", target, "--harness", harness]
         p = subprocess.run(cmd, cwd=KANI_DIR, env=env(), stdout=subprocess.PIPE, stderr=subprocess.STDOUT, text=True, timeout=timeout_s)
+        blocks = re.findall(r"Concrete playback unit test for `[^`]*`:\n```\n(.*?)\n```", p.stdout, re.S)
         tests = []
-        for root, _, files in os.walk(src):
-            for fn in files:
-                t = open(os.path.join(root, fn)).read()
-                tests += re.findall(r"fn (kani_concrete_playback_%s_\w+)" % re.escape(harness), t)
+        for b in blocks:
+            m = re.search(r"Check for `(\w+)`", b)
+            kind = m.group(1) if m else "?"
+            n = re.search(r"fn (kani_concrete_playback_\w+)", b)
+            if n and kind != "cover":
+                tests.append((n.group(1), b))
         if not tests:
-            return False, "no concrete playback test was generated"
+            return False, "no concrete playback test was printed"
+        mod_path = "::".join(full_name.split("::")[:-1])
+        with open(gen, "w") as f:
+            f.write("// generated by kcheck.common.playback; removed after the run\n#![allow(unused_imports)]\nuse crate::%s::%s;\n\n" % (mod_path, harness))
+            for _, b in tests[:3]:
+                f.write(b + "\n\n")
+        with open(librs, "w") as f:
+            f.write(lib_orig + "\n#[cfg(kani)]\nmod playback_gen;\n")
         out = []
         reproduced = False
-        for t in tests[:3]:
-            q = subprocess.run(["cargo", "kani", "playback", "-Z", "concrete-playback", "--test", t], cwd=KANI_DIR, env=env(),
+        for t, b in tests[:3]:
+            q = subprocess.run(["cargo", "kani", "playback", "-Z", "concrete-playback", "--", t], cwd=KANI_DIR, env=env(),
                                stdout=subprocess.PIPE, stderr=subprocess.STDOUT, text=True, timeout=timeout_s)
             tail = "\n".join(q.stdout.splitlines()[-25:])
             out.append("%s: exit %d\n%s" % (t, q.returncode, tail))
-            if q.returncode != 0 and ("panicked" in q.stdout or "FAILED" in q.stdout):
+            if q.returncode != 0 and ("panicked" in q.stdout or "test result: FAILED" in q.stdout):
                 reproduced = True
-        vals = []
-        for root, _, files in os.walk(src):
-            for fn in files:
-                t = open(os.path.join(root, fn)).read()
-                m = re.search(r"fn kani_concrete_playback_%s_\w+\(\) \{(.*?)\n    \}" % re.escape(harness), t, re.S)
-                if m:
-                    vals.append(m.group(1)[:1500])
-        return reproduced, "\n".join(out) + "\nconcrete values:\n" + "\n".join(vals)
+        vals = "\n".join(b[-1200:] for _, b in tests[:1])
+        return reproduced, "\n".join(out) + "\nconcrete values (Kani's generated unit test):\n" + vals
     except subprocess.TimeoutExpired:
         return False, "playback timed out"
     finally:
-        shutil.rmtree(src)
-        shutil.copytree(bak, src)
-        shutil.rmtree(bak, ignore_errors=True)
+        if os.path.exists(gen):
+            os.unlink(gen)
+        with open(librs, "w") as f:
+            f.write(lib_orig)
 
 
-def run_property(pid, table, functions, bounds, outside, assumptions, explanation):
+def run_property(pid, table, functions, bounds, outside, assumptions, explanation, extra=None):
     """table: list of dict(h=harness name, fn=function(s) under test, tier='quick'|'thorough', what=str, key=role key)"""
     chk = Check(pid, "model_checking")
     chk.module = "kcheck"
     sel = [t for t in table if t.get("tier", "quick") == "quick" or chk.tier == "thorough"]
+    if os.environ.get("VERIF_DEV_SKIP_KANI"):  # developer shortcut, never used by the registered commands
+        sel = []
     names = [t["h"] for t in sel]
-    res, log, rc, wall = run_kani(pid, names, jobs=int(os.environ.get("VERIF_KANI_JOBS", "8")),
-                                  timeout_s=3000 if chk.tier == "quick" else 14000)
+    if names:
+        res, log, rc, wall = run_kani(pid, names, jobs=int(os.environ.get("VERIF_KANI_JOBS", "8")),
+                                      timeout_s=3000 if chk.tier == "quick" else 14000)
+    else:
+        res, log, rc, wall = {}, None, 0, 0.0
     chk.count("kani_wall_s", int(wall))
     if rc == -9:
         chk.inconc("cargo kani timed out")
-    if all(r["status"] == "NOT_RUN" for r in res.values()):
+    if sel and all(r["status"] == "NOT_RUN" for r in res.values()):
         tail = "\n".join(open(log).read().splitlines()[-30:])
         chk.inconc("cargo kani did not run any harness (build failure?):\n" + tail)
     for t in sel:
@@ -169,7 +180,7 @@ def run_property(pid, table, functions, bounds, outside, assumptions, explanatio
             if r["unwind_fail"] and len(r["failed"]) == 1:
                 chk.inconc("%s: unwinding bound too small (%s)" % (t["h"], r["failed"]))
                 continue
-            reproduced, text = playback(pid, t["h"])
+            reproduced, text = playback(pid, t["h"], r.get("full"))
             chk.count("counterexamples_replayed")
             if reproduced:
                 chk.violation(t.get("key", t["h"]), "%s (%s): %s; failed checks: %s\n%s" % (t["h"], t["fn"], t["what"], r["failed"][:4], text[-1500:]),
@@ -178,6 +189,8 @@ def run_property(pid, table, functions, bounds, outside, assumptions, explanatio
                 chk.inconc("%s: Kani reports %s but the concrete playback did not fail natively:\n%s" % (t["h"], r["failed"][:3], text[-800:]))
         else:
             chk.inconc("%s: %s" % (t["h"], r["status"]))
+    if extra is not None:
+        extra(chk)
     chk.functions = functions
     chk.bounds = bounds
     chk.outside = outside
